@@ -118,6 +118,7 @@ func verifServe(req *verifReq) (resp map[string]interface{}) {
 			resp["Err"] = "no such harness: " + req.Harness
 			return
 		}
+		verifSrc = req.Src
 		verifVec = req.Vec
 		if verifVec == nil {
 			verifVec = map[string]uint64{}
